@@ -3,7 +3,8 @@
    round 3:      python -m hv.seedimport A7 3        (/tmp/out3_A7; property read from the first line of notes<k>.md -> Cxx-A7-k)
    round 4:      python -m hv.seedimport F7 4        (/tmp/out4_F7; likewise -> Cxx-F7-k)
    round 5:      python -m hv.seedimport G7 5        (/tmp/out5_G7; likewise -> Cxx-G7-k)
-   round 6:      python -m hv.seedimport R7 6        (/tmp/out6_R7; likewise -> Cxx-R7-k)"""
+   round 6:      python -m hv.seedimport R7 6        (/tmp/out6_R7; likewise -> Cxx-R7-k)
+   round 7:      python -m hv.seedimport X7 7        (/tmp/out7_X7; likewise -> Cxx-X7-k)"""
 import json
 import os
 import re
@@ -40,6 +41,7 @@ def main():
         meta.setdefault('origin', 'independent sub-agent given only the property text(s), a private worktree and a neutral emulator driver'
                         + (f'; round 3: free choice of property, confined to compiler area {key}' if rnd == 3 else '')
                         + (f'; round 4: free choice of property and place, confined to language feature focus {key}' if rnd == 4 else '')
+                        + (f'; round 7: starting from one shipped example program ({key}); the change must leave every example unchanged and break a plausible variation of it' if rnd == 7 else '')
                         + (f'; round 6: confined to one region of the code ({key}), free choice of property' if rnd == 6 else '')
                         + (f'; round 5: free choice of property and place, focus on a combination of two features ({key}), asked for changes that need more to manifest' if rnd == 5 else ''))
         meta.setdefault('needs_to_manifest', 'see notes.md')
